@@ -126,6 +126,8 @@ def _recover_renames_once(prog, table):
         holder, mname = mq.rsplit('.', 1)
         if mname in mentioned or mname in defined:
             continue        # the reference name is still in use for something: not a plain rename
+        if mname.startswith('_') and mname.endswith('_'):
+            continue        # _missing_, __str__, ...: names a library or the interpreter calls by name - renaming them changes behaviour
         msig = sigs.get(mq)
         for nq in new:
             nh, nname = nq.rsplit('.', 1)
@@ -225,7 +227,7 @@ def recover_identifier_renames(prog, table):
     if not ref or not vocab_ref:
         return []
     now, vocab_now = identifier_mentions(prog)
-    missing = [k for k in sorted(ref) if k not in vocab_now]
+    missing = [k for k in sorted(ref) if k not in vocab_now and not (k.startswith('_') and k.endswith('_'))]    # not protocol names (_fields_)
     new = [k for k in sorted(now) if k not in vocab_ref]
     if not missing or not new:
         return []
